@@ -33,7 +33,8 @@ DEPTH = {"quick": 2, "thorough": 3}
 HOPS = ["seed0", "seed12345", "draw", "fit_km_random", "fit_gmm", "fit_isv", "fit_jfa", "fit_ivector", "fit_km_parallel"]
 TARGETS = ["km_random", "km_random_dask", "gmm_km", "gmm_km_dask", "isv_list", "isv_bag", "isv_array_dask", "jfa_list", "wccn", "km_parallel",
            "isv_list_seed0", "jfa_list_seed0", "km_random_refit", "gmm_shared_km_trainer", "gmm_default_init",
-           "isv_lazy_built_first", "jfa_lazy_built_first", "gmm_built_first", "km_built_first"]
+           "isv_lazy_built_first", "jfa_lazy_built_first", "gmm_built_first", "km_built_first",
+           "isv_list_npseed", "jfa_list_npseed", "km_random_npseed", "gmm_km_npseed"]
 # "*_built_first": the estimator is constructed, THEN the history happens, THEN it is trained
 
 _SHARED_KW = dict(n_gaussians=2, max_fitting_steps=2, convergence_threshold=None)  # one settings dict handed to several estimators
@@ -132,6 +133,17 @@ def _fit_target(t, X, ubm, stats, between=None):
         A = X.copy() if t == "gmm_km" else da.from_array(X.copy(), chunks=(5, 2))
         g = GMMMachine(2, k_means_trainer=KMeansMachine(2, init_method="random", random_state=5, max_iter=2), random_state=5, max_fitting_steps=2,
                        update_means=True, update_variances=True, update_weights=True, convergence_threshold=None).fit(A)
+        return _vec(g, ["means", "variances", "weights"])
+    # seeds that are NumPy integers (np.arange, a parameter grid, an HDF5 attribute), not Python ints
+    if t == "isv_list_npseed":
+        return _vec(ISVMachine(r_U=2, em_iterations=1, ubm=ubm, random_state=np.int64(4)).fit(copy.deepcopy(stats), sl), ["U", "D"])
+    if t == "jfa_list_npseed":
+        return _vec(JFAMachine(r_U=1, r_V=1, em_iterations=1, ubm=ubm, random_state=np.arange(12, dtype=np.uint32)[9]).fit(copy.deepcopy(stats), sl), ["U", "V", "D"])
+    if t == "km_random_npseed":
+        return _vec(KMeansMachine(2, init_method="random", random_state=np.int64(3), max_iter=3).fit(X.copy()), ["centroids_"])
+    if t == "gmm_km_npseed":
+        g = GMMMachine(2, k_means_trainer=KMeansMachine(2, init_method="random", random_state=np.int32(5), max_iter=2), random_state=np.int32(5), max_fitting_steps=2,
+                       update_means=True, update_variances=True, update_weights=True, convergence_threshold=None).fit(X.copy())
         return _vec(g, ["means", "variances", "weights"])
     if t == "isv_list_seed0":
         return _vec(ISVMachine(r_U=2, em_iterations=1, ubm=ubm, random_state=0).fit(copy.deepcopy(stats), sl), ["U", "D"])
@@ -268,7 +280,7 @@ def run_case(case):
             _SHARED_KW.clear()
             _SHARED_KW.update(n_gaussians=2, max_fitting_steps=2, convergence_threshold=None)
             np.random.seed(424242)
-            fresh = {"km_random_refit": "km_random", "gmm_shared_km_trainer": "gmm_km"}.get(case["target"], case["target"])
+            fresh = {"km_random_refit": "km_random", "gmm_shared_km_trainer": "gmm_km", "km_random_npseed": "km_random", "gmm_km_npseed": "gmm_km"}.get(case["target"], case["target"])
             ref = _fit_target(fresh, X, ubm, stats)
             again = _fit_target(case["target"], X, ubm, stats)
             for k in ref:
